@@ -59,7 +59,8 @@ RECORD_PATHS = {"bicmodel": {("arguments", "num_clusters"): ("num_clusters", "in
                             ("point_labels",): ("point_labels", ("list", "int"))}}
 
 ATTRS = {"admmargs": {"window_size": "int", "num_data_series": "int", "rho": "scalar", "sparsity_weight": "lam",
-                      "max_iterations": "int", "verbose": "bool", "rho_update": "rhocb"},
+                      "max_iterations": "int", "verbose": "bool", "rho_update": "rhocb",
+                      "absolute_tolerance": "scalar", "relative_tolerance": "scalar"},
          "chmodel": {"clusters": ("list", "chcluster")},
          "donormodel": {"clusters": ("list", "donorcluster")},
          "donorcluster": {"size": "int", "computed_covariance": "arr2"},
@@ -178,6 +179,16 @@ SPECS = [
          params={"args": "admmargs", "u": "arr1", "x": "arr1"}, ret="arr1", field=True),
     dict(file="admm/solver.py", func="admm_update_u",
          params={"u": "arr1", "x": "arr1", "z": "arr1"}, ret="arr1", field=True),
+    dict(file="admm/solver.py", func="admm_update_x",
+         params={"args": "admmargs", "u": "arr1", "z": "arr1", "empirical_covariance": "arr2"}, ret="arr1", field=True,
+         # the proximal operator of the log-det term (an eigendecomposition) is a function parameter
+         consts={"xProx": "Py.Arr2 α → Py.Arr2 α → α → Py.Arr1 α"},
+         externs={"x_update_prox": ("xProx", ["arr2", "arr2", "scalar"], "arr1")}),
+    dict(file="admm/solver.py", func="check_convergence",
+         params={"args": "admmargs", "u": "arr1", "x": "arr1", "z": "arr1", "z_old": "arr1"},
+         ret=("tuple", "bool", "scalar", "scalar", "scalar", "scalar"), field=True,
+         # the Euclidean norm and the square root of the vector length are function parameters
+         consts={"normOf1": "Py.Arr1 α → α", "sqrtOfInt": "Int → α"}),
     dict(file="admm/solver.py", func="run_admm_optimization",
          params={"args": "admmargs", "empirical_covariance": "arr2"}, ret="arr1", field=True,
          consts={"xUpdate": "Py.ADMMArgs α → Py.Arr1 α → Py.Arr1 α → Py.Arr2 α → Py.Arr1 α",
@@ -338,6 +349,7 @@ class FuncTranslator:
         self.uses_ok = False
         self.in_err_loop = False
         self.local_funcs = {}
+        self.aliases = {}
         self.loop_depth = 0
         self.promoted = set()
         self.tmp = 0
@@ -715,6 +727,15 @@ class FuncTranslator:
             name = "<method>." + f.attr
         if name is None:
             raise Unsupported("call target")
+        name = self.aliases.get(name, name)
+        if name == "np.linalg.norm" and len(args) == 1 and not kw and "normOf1" in (self.spec.get("consts") or []):
+            a, at = self.expr(args[0])
+            if at == "arr1":
+                return f"(normOf1 {a})", "scalar"
+        if name == "math.sqrt" and len(args) == 1 and not kw and "sqrtOfInt" in (self.spec.get("consts") or []):
+            a, at = self.expr(args[0])
+            if at == "int":
+                return f"(sqrtOfInt {a})", "scalar"
         if name == "int" and len(args) == 1:
             s, t = self.expr(args[0])
             if t == "rat":
@@ -852,7 +873,7 @@ class FuncTranslator:
                 return s, t
             raise Unsupported("float() of " + str(t))
         if name not in self.known and "." in name and name.split(".")[-1] in self.known \
-                and name.split(".")[0] in ("unique_values",):
+                and name.split(".")[0] in ("unique_values", "matrix_compression"):
             name = name.split(".")[-1]
         if name == "np.log" and len(args) == 1 and not kw and "logOfInt" in (self.spec.get("consts") or []):
             a, at = self.expr(args[0])
@@ -952,6 +973,10 @@ class FuncTranslator:
         for k, s in enumerate(stmts):
             if isinstance(s, ast.Expr) and isinstance(s.value, ast.Constant) and isinstance(s.value.value, str):
                 continue                                            # docstring
+            if isinstance(s, ast.Assign) and len(s.targets) == 1 and isinstance(s.targets[0], ast.Name) \
+                    and ast.dump(s.value) == ast.dump(ast.parse("np.linalg.norm", mode="eval").body):
+                self.aliases[s.targets[0].id] = "np.linalg.norm"    # `norm = np.linalg.norm`: a local name for a function
+                continue
             if isinstance(s, ast.Assign) and len(s.targets) == 1 \
                     and not (isinstance(s.value, ast.Constant) and s.value.value is None):
                 lines += self.assign(s.targets[0], s.value, pad, top)
@@ -1032,6 +1057,9 @@ class FuncTranslator:
                 lines.append(f"{pad}let {nm} : Py.Arr1 α := Py.Arr1.const 0 (0 : α)")
             elif isinstance(s, ast.Expr) and self.is_log_call(s.value):
                 continue                                            # diagnostics with pure arguments: no effect on values
+            elif isinstance(s, ast.If) and self.only_logging(s.body) and self.only_logging(s.orelse) \
+                    and not any(isinstance(n_, (ast.Call, ast.NamedExpr)) for n_ in ast.walk(s.test)):
+                continue                                            # `if verbose: LOGGER.debug(...)`: no effect on values
             elif isinstance(s, ast.For) and top and any(isinstance(n_, ast.Break) for n_ in ast.walk(s)):
                 lines += self.for_loop_break(s, ind, stmts[k + 1:])
                 return lines
@@ -1088,6 +1116,10 @@ class FuncTranslator:
         if tail_vars is not None:
             lines.append(pad + self.tuple_of(tail_vars))
         return lines
+
+    def only_logging(self, stmts):
+        return all((isinstance(s_, ast.Expr) and (isinstance(s_.value, ast.Constant) or self.is_log_call(s_.value)))
+                   or isinstance(s_, ast.Pass) for s_ in stmts)
 
     def is_log_call(self, e):
         """`LOGGER.debug(fmt, a, b, ...)`: a diagnostic whose arguments are names, constants, attributes or arithmetic"""
@@ -1620,7 +1652,7 @@ def _parse_for(t, tok, var):
                 f"              | [\"s\", v] => (parseRat? v).map Py.Lambda.scalar\n"
                 f"              | [\"m\", v] => (parseRatss? v).map (fun l => Py.Lambda.matrix (Py.Arr2.ofLists l ((l.headD []).length)))\n"
                 f"              | _ => none)\n"
-                f"            pure (Py.ADMMArgs.mk w n r l 1000 false none)\n"
+                f"            pure (Py.ADMMArgs.mk w n r l 1000 false none 0 0)\n"
                 f"        | _ => none)", f"({var} : Py.ADMMArgs Rat)")
     if t == "sov":
         return (f"let {var} ← (match {tok}.splitOn \":\" with\n"
